@@ -102,7 +102,8 @@ def main(tier):
         "finalized. STACK DISCIPLINE (contracts/c01_stack.py; ghost view of ctx.parser_stack as a string with one "
         "character per node = its kind, pyvc/pnodes.py): every function of parser.py that can reach a write of the "
         "stack has the contract `requires/ensures: non-empty, bottom node ROOT, no other ROOT`; for "
-        f"{3 + len(c01_stack.VERIFIED) + 4} of them (_parser_push with its exact effect, _parser_pop, "
+        f"{4 + len(c01_stack.VERIFIED) + 4} of them (_parser_push with its exact effect, _parser_pop, _parser_have "
+        "with its exact result -- a scan that runs to exhaustion only if every node took the fall-through path --, "
         "close_begline_lists, process_text, parse_encoded, the two attribute checkers and "
         f"{len(c01_stack.VERIFIED)} token handlers incl. text_fn, tag_fn, magic_fn) the real body is verified against "
         "it: every ctx.parser_stack[i] / .pop() is in range, every _parser_pop call has two nodes on the stack, every "
